@@ -37,7 +37,11 @@ pub fn tetris_lib_of(v: &Value) -> t::library::Library {
         }
         for a in geta(c, "assigns") { lay.assignments.push(t::stack::Assign::new(gets(a, "net"), cross_of(a))); }
         for a in geta(c, "cuts") { lay.cuts.push(cross_of(a)); }
-        cells[i].write().unwrap().layout = Some(lay);
+        if c.get("view").and_then(|v| v.as_str()) == Some("abs") {
+            cells[i].write().unwrap().abs = Some(t::abs::Abstract::new(gets(c, "name"), geti(c, "metals") as usize, outline_of(&c["outline"])));
+        } else {
+            cells[i].write().unwrap().layout = Some(lay);
+        }
     }
     for c in cells { lib.cells.push(c); }
     lib
@@ -45,7 +49,10 @@ pub fn tetris_lib_of(v: &Value) -> t::library::Library {
 fn tref(r: &t::tracks::TrackRef) -> Value { json!([r.layer, r.track]) }
 pub fn tetris_lib_json(lib: &t::library::Library) -> Value {
     json!({"name": lib.name, "cells": lib.cells.iter().map(|c| { let c = c.read().unwrap();
-        match &c.layout { None => json!({"name": c.name, "no_layout": true}),
+        match &c.layout {
+          None => match &c.abs { None => json!({"name": c.name, "no_layout": true}),
+                   Some(a) => json!({"name": c.name, "view": "abs", "aname": a.name, "metals": a.metals, "nports": a.ports.len(),
+                       "outline": {"x": a.outline.x.iter().map(|p| p.num).collect::<Vec<_>>(), "y": a.outline.y.iter().map(|p| p.num).collect::<Vec<_>>()}}) },
           Some(l) => json!({"name": c.name, "lname": l.name, "metals": l.metals,
             "outline": {"x": l.outline.x.iter().map(|p| p.num).collect::<Vec<_>>(), "y": l.outline.y.iter().map(|p| p.num).collect::<Vec<_>>()},
             "insts": l.instances.iter().map(|i| { let i = i.read().unwrap(); json!({"name": i.inst_name, "cell": i.cell.read().unwrap().name,
@@ -57,6 +64,8 @@ fn ptref(r: &Option<tp::TrackRef>) -> Value { r.as_ref().map(|r| json!([r.layer,
 fn pcross(c: &tp::TrackCross) -> Value { json!({"track": ptref(&c.track), "cross": ptref(&c.cross)}) }
 pub fn tproto_json(p: &tp::Library) -> Value {
     json!({"domain": p.domain, "cells": p.cells.iter().map(|c| json!({"name": c.name,
+        "abstract": c.r#abstract.as_ref().map(|a| json!([{"name": a.name, "nports": a.ports.len(),
+            "outline": a.outline.as_ref().map(|o| json!({"x": o.x, "y": o.y, "metals": o.metals})).unwrap_or(Value::Null)}])).unwrap_or(json!([])),
         "layout": c.layout.as_ref().map(|l| json!([{"name": l.name,
             "outline": l.outline.as_ref().map(|o| json!({"x": o.x, "y": o.y, "metals": o.metals})).unwrap_or(Value::Null),
             "instances": l.instances.iter().map(|i| json!({"name": i.name,
@@ -111,6 +120,10 @@ pub fn tproto_of(v: &Value, brk: Option<&Value>) -> tp::Library {
                 pl.cuts.push(at);
             }
             pc.layout = Some(pl);
+        }
+        if let Some(a) = c.get("abstract").and_then(|a| a.as_array()).and_then(|a| a.first()) {
+            let o = &a["outline"];
+            pc.r#abstract = Some(tp::Abstract { name: gets(a, "name").into(), outline: Some(tp::Outline { x: ivec(&o["x"]), y: ivec(&o["y"]), metals: geti(o, "metals") }), ..Default::default() });
         }
         p.cells.push(pc);
     }
